@@ -10,7 +10,7 @@
 (* do not decode) abort the run (tool error).  The verdict (bad, cov) is    *)
 (* printed as JSON by the final `Finish` step.                              *)
 (***************************************************************************)
-EXTENDS Naturals, Integers, Sequences, FiniteSets, TLC, Json, IOUtils, NdContract
+EXTENDS Naturals, Integers, Sequences, FiniteSets, TLC, Json, IOUtils, NdContract, SplineRef, BilinearRef
 
 Rec == ndJsonDeserialize(IOEnv.TRACE)
 
@@ -20,8 +20,9 @@ VARIABLES
     memoP,  \* functional-dependence memo: set of <<family, key, bits>>
     memoK,  \* its keys: set of <<family, key>>
     bad,    \* violations found so far (sequence of records)
-    cov     \* coverage class (string) -> count
-vars == <<l, objs, memoP, memoK, bad, cov>>
+    cov,    \* coverage class (string) -> count
+    head    \* strategy/element class -> largest observed error in per-mille of its tolerance band
+vars == <<l, objs, memoP, memoK, bad, cov, head>>
 
 MaxBadPerEvent == 4
 
@@ -35,6 +36,15 @@ Bump(c, ks) ==   \* ks: sequence of strings (with repetitions)
         cnt(k) == Cardinality({i \in 1..Len(ks) : ks[i] = k})
     IN  [k \in (DOMAIN c) \cup S |->
             (IF k \in DOMAIN c THEN c[k] ELSE 0) + (IF k \in S THEN cnt(k) ELSE 0)]
+
+\* err / tol in per mille (capped), for the head-room statistics
+PerMille(err, tol) ==
+    IF tol = Q0 THEN (IF err = Q0 THEN 0 ELSE 1000000)
+    ELSE QToInt(QMin(QFloor(QDiv(QMul(err, "1000"), tol)), "1000000"))
+
+MaxInt(a, b) == IF a > b THEN a ELSE b
+
+HeadUp(h, k, v) == IF k \in DOMAIN h THEN [h EXCEPT ![k] = MaxInt(@, v)] ELSE (k :> v) @@ h
 
 V(props, sig, detail) == [line |-> l, props |-> props, sig |-> sig, detail |-> detail]
 
@@ -69,7 +79,112 @@ FamilyProps(fam) ==
       [] OTHER -> {}
 
 ----------------------------------------------------------------------------
+\* C19: every recorded unchecked cast relabels identical types
+CastViolations(ev) ==
+    LET cs == ev.casts
+        badI == SelectSeq([i \in 1..Len(cs) |-> i],
+                          LAMBDA i : cs[i].from # cs[i].to \/ cs[i].fs # cs[i].ts \/ cs[i].fa # cs[i].ta)
+    IN  [i \in 1..Len(badI) |-> V({"C19"}, "C19|cast|types-differ|" \o ev.en \o "|" \o ev.qtag,
+                                   <<cs[badI[i]].from, cs[badI[i]].to, cs[badI[i]].fs, cs[badI[i]].ts>>)]
+
+CastClasses(ev) ==
+    IF Len(ev.casts) > 0 THEN <<"CAST|" \o ev.ev \o "|" \o ev.qtag \o "|n" \o ToString(Len(ev.casts))>>
+    ELSE IF ev.en \in {"array", "array_into"} THEN <<"NOCAST|" \o ev.ev \o "|" \o ev.qtag>> ELSE <<>>
+
+\* multiset equality of two sequences
+SameBag(a, b) ==
+    Len(a) = Len(b) /\ \A v \in {a[i] : i \in 1..Len(a)} :
+        Cardinality({i \in 1..Len(a) : a[i] = v}) = Cardinality({i \in 1..Len(b) : b[i] = v})
+
+(***************************************************************************)
+(* C18: what a recording custom strategy observed during a query.           *)
+(* o: the object; qb / q2b: query payloads; tshape: required target shape.  *)
+(***************************************************************************)
+CustomQueryViolations(ev, o, twoD, bufOk) ==
+    LET cbs == ev.cb
+        nq == Len(ev.q.v)
+        fa == o.st.fa
+        fails == fa >= 0 /\ fa < nq
+        tshape == Drop(o.dshape, IF twoD THEN 2 ELSE 1)
+        qOf(c) == IF twoD THEN <<c.q, c.q2>> ELSE <<c.q>>
+        asked == [i \in 1..nq |-> IF twoD THEN <<ev.q.v[i], ev.q2.v[i]>> ELSE <<ev.q.v[i]>>]
+        seen == [i \in 1..Len(cbs) |-> qOf(cbs[i])]
+        vTok == IF fails THEN
+                    (IF ev.out # "Err:OutOfBounds" \/ ev.em # ("verif-token-" \o ToString(fa))
+                     THEN <<V({"C18"}, "C18|" \o ev.en \o "|strategy-error-not-propagated", <<ev.out, ev.em, fa>>)>> ELSE <<>>)
+                ELSE (IF ev.out # "Ok" THEN <<V({"C18"}, "C18|" \o ev.en \o "|custom-query-failed", <<ev.out, ev.pm>>)>> ELSE <<>>)
+        vQs == IF ~fails /\ ev.out = "Ok" /\ ~SameBag(asked, seen)
+               THEN <<V({"C18"}, "C18|" \o ev.en \o "|queries-modified-or-miscounted", <<asked, seen>>)>>
+               ELSE IF fails /\ \E i \in 1..Len(seen) : seen[i] \notin {asked[j] : j \in 1..nq}
+               THEN <<V({"C18"}, "C18|" \o ev.en \o "|queries-modified", <<asked, seen>>)>>
+               ELSE <<>>
+        vTs == IF \E i \in 1..Len(cbs) : cbs[i].ts # tshape
+               THEN <<V({"C18"}, "C18|" \o ev.en \o "|target-shape", <<tshape>>)>> ELSE <<>>
+        \* accessors seen from inside the strategy
+        accOk(c) ==
+            IF twoD THEN
+                LET qx == QDecode(o.el, c.q) qy == QDecode(o.el, c.q2) IN
+                /\ c.x0 = o.xb[1] /\ c.y0 = o.yb[1]
+                /\ c.row0 = [j \in 1..o.L |-> o.zb[j][1][1]]
+                /\ (c.inr = 1) = InRange(o.x, qx) /\ (c.inr2 = 1) = InRange(o.y, qy)
+                /\ (IsNaN(qx) \/ IsNaN(qy) \/ (IsBracket(o.x, qx, c.left + 1) /\ IsBracket(o.y, qy, c.left2 + 1)))
+            ELSE
+                LET qx == QDecode(o.el, c.q) IN
+                /\ c.x0 = o.xb[1]
+                /\ c.row0 = [j \in 1..o.L |-> o.yb[j][1]]
+                /\ (c.inr = 1) = InRange(o.x, qx)
+                /\ (IsNaN(qx) \/ IsBracket(o.x, qx, c.left + 1))
+        vAcc == IF \E i \in 1..Len(cbs) : ~accOk(cbs[i])
+                THEN <<V({"C18"}, "C18|" \o ev.en \o "|accessor", <<CHOOSE i \in 1..Len(cbs) : ~accOk(cbs[i])>>)>> ELSE <<>>
+    IN  IF bufOk THEN vTok \o vQs \o vTs \o vAcc ELSE <<>>
+
+\* what the recording strategy builder observed during build (1-D and 2-D)
+CustomBuildViolations(ev, twoD, otherKinds, xb, yb) ==
+    LET cbs == ev.cb
+        validated == otherKinds = {}
+        vCall == IF validated /\ Len(cbs) # 1 THEN <<V({"C18"}, "C18|build|strategy-not-invoked-once", <<Len(cbs)>>)>>
+                 ELSE IF ~validated /\ Len(cbs) # 0 THEN <<V({"C18"}, "C18|build|strategy-invoked-with-invalid-input", <<otherKinds>>)>>
+                 ELSE <<>>
+        vArgs == IF validated /\ Len(cbs) = 1 /\
+                    (cbs[1].x # xb \/ cbs[1].d # ev.d \/ (twoD /\ cbs[1].y # yb))
+                 THEN <<V({"C18"}, "C18|build|strategy-inputs-modified", <<>>)>> ELSE <<>>
+        vErr == IF validated /\ ev.st.fb = 1 /\ (ev.out # "Err:ValueError" \/ ev.msg # "verif-token-build")
+                THEN <<V({"C18"}, "C18|build|strategy-error-not-propagated", <<ev.out, ev.msg>>)>> ELSE <<>>
+    IN  vCall \o vArgs \o vErr
+
+----------------------------------------------------------------------------
 \* Build events
+
+\* boundary condition of lane j (1-based, row-major over the trailing axes) in SplineRef form
+SideOf(el, k, v) ==
+    CASE k = "NotAKnot" -> [k |-> "NotAKnot", v |-> Q0]
+      [] k = "Natural" -> [k |-> "SecondDeriv", v |-> Q0]
+      [] k = "Clamped" -> [k |-> "FirstDeriv", v |-> Q0]
+      [] k = "FirstDeriv" -> [k |-> "FirstDeriv", v |-> QDecode(el, v)]
+      [] k = "SecondDeriv" -> [k |-> "SecondDeriv", v |-> QDecode(el, v)]
+
+LaneBc(st, el, j) ==
+    IF st.bc = "Periodic" THEN [per |-> TRUE, l |-> SideOf(el, "NotAKnot", ""), r |-> SideOf(el, "NotAKnot", "")]
+    ELSE IF st.bc = "Individual" THEN
+        LET row == st.rows[j] IN [per |-> FALSE, l |-> SideOf(el, row[2], row[3]), r |-> SideOf(el, row[4], row[5])]
+    ELSE [per |-> FALSE, l |-> SideOf(el, st.bc, ""), r |-> SideOf(el, st.bc, "")]
+
+\* coverage class of a lane's boundary selection
+BcClass(bc, n) ==
+    "BC|" \o (IF bc.per THEN "Periodic" ELSE bc.l.k \o "-" \o bc.r.k) \o "|n" \o (IF n = 3 THEN "3" ELSE IF n = 4 THEN "4" ELSE "5+")
+
+\* polynomial c[1] + c[2] x + c[3] x^2 + c[4] x^3 and its Taylor coefficients at a point
+PolyAt(c, x) == QAdd(c[1], QMul(x, QAdd(c[2], QMul(x, QAdd(c[3], QMul(x, c[4]))))))
+PolyTaylor(c, x) ==
+    << PolyAt(c, x),
+       QAdd(c[2], QMul(x, QAdd(QMul(Q2, c[3]), QMul(Q3, QMul(x, c[4]))))),
+       QAdd(c[3], QMul(Q3, QMul(x, c[4]))),
+       c[4] >>
+
+BcFin(bc) == IsFin(bc.l.v) /\ IsFin(bc.r.v)
+
+\* what identifies the lane's own boundary selection in memo keys (form + kinds + value payloads)
+LaneBcKey(st, j) == IF st.bc = "Individual" THEN <<"Individual", st.rows[j]>> ELSE <<st.bc>>
 
 ColumnsOf(v, n, L) == [j \in 1..L |-> [i \in 1..n |-> v[(i - 1) * L + j]]]
 
@@ -92,14 +207,36 @@ DoB1(ev) ==
                ELSE <<>>
         mk == ev.out = "Ok" /\ valid
         ydec == DecSeq(el, ev.d.v)
+        ycol == ColumnsOf(ydec, n, L)
+        isSpl == ev.st.k = "Spline"
+        bcs == IF isSpl THEN [j \in 1..L |-> LaneBc(ev.st, el, j)] ELSE <<>>
+        spl == IF isSpl /\ mk /\ AllFin(xdec)
+               THEN [j \in 1..L |-> IF AllFin(ycol[j]) /\ BcFin(bcs[j]) THEN SplineOf(xdec, ycol[j], bcs[j]) ELSE [none |-> TRUE]]
+               ELSE <<>>
         o == [kind |-> "1D", el |-> el, n |-> n, L |-> L, dshape |-> dshape,
-              x |-> xdec, xb |-> IF ev.xdef = 1 THEN xdec ELSE ev.x,
-              y |-> ColumnsOf(ydec, n, L), yb |-> ColumnsOf(ev.d.v, n, L),
-              st |-> ev.st, line |-> l]
-    IN  /\ objs' = IF mk THEN (ev.id :> o) @@ objs ELSE objs
-        /\ bad' = bad \o v10
-        /\ cov' = Bump(cov, <<"B1|" \o ev.st.k \o "|" \o ev.out>>)
-        /\ UNCHANGED <<memoP, memoK>>
+              x |-> xdec, xb |-> IF ev.xdef = 1 THEN [i \in 1..n |-> QRound(el, QI(i - 1))] ELSE ev.x,
+              y |-> ycol, yb |-> ColumnsOf(ev.d.v, n, L),
+              st |-> ev.st, line |-> l, bcs |-> bcs, bck |-> IF isSpl THEN [j \in 1..L |-> LaneBcKey(ev.st, j)] ELSE <<>>,
+              spl |-> spl]
+        \* C16: the build claims that lane j holds samples of the polynomial ev.poly[j]; the claim and the
+        \* consequence "the reference interpolant IS that polynomial" are verified exactly (else tool error)
+        polyOk == ~(Has(ev, "poly") /\ mk) \/
+                  \A j \in 1..L :
+                     LET c == DecSeq(el, ev.poly[j]) IN
+                     /\ \A i \in 1..n : ycol[j][i] = PolyAt(c, xdec[i])
+                     /\ IF isSpl THEN \A i \in 1..(n - 1) : spl[j].P[i] = PolyTaylor(c, xdec[i])
+                        ELSE c[3] = Q0 /\ c[4] = Q0
+        oo == IF Has(ev, "poly") THEN [poly |-> TRUE] @@ o ELSE o
+        xbits == IF ev.xdef = 1 THEN [i \in 1..n |-> QRound(el, QI(i - 1))] ELSE ev.x
+        v18 == IF ev.st.k = "Custom"
+               THEN CustomBuildViolations(ev, FALSE, ViolatedKinds1([inp EXCEPT !.st = [@ EXCEPT !.fb = 0]]), xbits, <<>>)
+               ELSE <<>>
+    IN  /\ Assert(polyOk, <<"harness error: polynomial claim of build event does not hold", l>>)
+        /\ objs' = IF mk THEN (ev.id :> oo) @@ objs ELSE objs
+        /\ bad' = bad \o v10 \o v18
+        /\ cov' = Bump(cov, <<"B1|" \o ev.st.k \o "|" \o ev.out>> \o (IF isSpl /\ mk THEN [j \in 1..L |-> BcClass(bcs[j], n)] ELSE <<>>)
+                             \o (IF Has(ev, "poly") /\ mk THEN <<"POLY|" \o ev.st.k>> ELSE <<>>))
+        /\ UNCHANGED <<memoP, memoK, head>>
 
 ----------------------------------------------------------------------------
 \* Query events (1-D)
@@ -126,12 +263,53 @@ JudgeLinElem(o, lane, qb, q, obsb) ==
              IN [ok |-> good,
                  class |-> IF ~inr THEN "extrap" ELSE IF q = o.x[i] \/ q = o.x[i + 1] THEN "knot" ELSE "inner",
                  props |-> IF inr THEN {"C01"} ELSE {"C06"},
-                 ref |-> ref, bracket |-> i,
+                 ref |-> ref, bracket |-> i, pm |-> IF IsFin(obs) THEN PerMille(QAbs(QSub(obs, ref)), tol) ELSE 1000000,
                  memo |-> {<<"lin", key, obsb>>}]
+
+JudgeSplElem(o, lane, qb, q, obsb) ==
+    LET sp == o.spl[lane]
+        ex == o.st.ex = 1
+        per == o.st.bc = "Periodic"
+        inr == InRange(o.x, q)
+        exKey == IF inr THEN "in" ELSE IF per THEN "wrap" ELSE "ex"
+        key == <<o.el, o.xb, o.yb[lane], o.bck[lane], Drop(o.dshape, 1), lane, exKey, qb>>
+        memo == {<<"spl", key, obsb>>}
+    IN  IF Has(sp, "none") THEN [ok |-> TRUE, class |-> "nonfinite-lane", memo |-> memo]
+        ELSE
+        LET wrap == per /\ ~inr
+            qq == IF wrap THEN Wrap(o.x, q) ELSE q
+            i == Bracket(o.x, qq)
+            ref == SplineAt(sp, o.x, i, qq)
+            tau == Tau(o.x[i], o.x[i + 1], qq)
+            tol == IF wrap THEN QAdd(TolSpline(o.el, sp, tau), TolWrap(o.el, sp, o.x, q)) ELSE TolSpline(o.el, sp, tau)
+            obs == QDecode(o.el, obsb)
+            good == IsFin(obs) /\ QLe(QAbs(QSub(obs, ref)), tol)
+        IN  [ok |-> good,
+             class |-> (IF wrap THEN "wrap" ELSE IF ~inr THEN "extrap" ELSE IF q = o.x[i] \/ q = o.x[i + 1] THEN "knot" ELSE "inner"),
+             props |-> (IF wrap THEN {"C07"} ELSE IF ~inr THEN {"C06"} ELSE {"C02", "C03"}) \cup (IF Has(o, "poly") THEN {"C16"} ELSE {}),
+             ref |-> ref, bracket |-> i, pm |-> IF IsFin(obs) THEN PerMille(QAbs(QSub(obs, ref)), tol) ELSE 1000000,
+             memo |-> memo]
+
+\* the recording strategy fills its target with the query value (1-D) / x + y (2-D): the element of the
+\* result that belongs to query i must hold exactly that, which checks that the *right* target view was passed
+CustomValues1(ev, o, res, go) ==
+    IF ~go THEN <<>>
+    ELSE LET N == Len(ev.q.v) * o.L
+             badK == SelectSeq([k \in 1..N |-> k], LAMBDA k : res.v[k] # ev.q.v[((k - 1) \div o.L) + 1])
+         IN IF Len(badK) > 0 THEN <<V({"C18", "C09"}, "C18|" \o ev.en \o "|wrong-target", <<badK[1]>>)>> ELSE <<>>
+
+CustomValues2(ev, o, res, go) ==
+    IF ~go THEN <<>>
+    ELSE LET N == Len(ev.q.v) * o.L
+             want(k) == LET qi == ((k - 1) \div o.L) + 1
+                            a == QDecode(o.el, ev.q.v[qi]) b == QDecode(o.el, ev.q2.v[qi])
+                        IN IF IsFin(a) /\ IsFin(b) THEN QDecode(o.el, QRound(o.el, QAdd(a, b))) ELSE "skip"
+             badK == SelectSeq([k \in 1..N |-> k], LAMBDA k : want(k) # "skip" /\ QDecode(o.el, res.v[k]) # want(k))
+         IN IF Len(badK) > 0 THEN <<V({"C18", "C09"}, "C18|" \o ev.en \o "|wrong-target", <<badK[1]>>)>> ELSE <<>>
 
 DoQ1(ev) ==
     IF ev.id \notin DOMAIN objs
-    THEN /\ cov' = Bump(cov, <<"Q1|orphan">>) /\ UNCHANGED <<objs, memoP, memoK, bad>>
+    THEN /\ cov' = Bump(cov, <<"Q1|orphan">>) /\ UNCHANGED <<objs, memoP, memoK, bad, head>>
     ELSE
     LET o == objs[ev.id]
         sk == o.st.k
@@ -150,12 +328,18 @@ DoQ1(ev) ==
             IF ~bufOk THEN
                 (IF ev.out = "Ok" THEN <<V({"C14"}, "C14|" \o ev.en \o "|wrong-shape-accepted", <<ev.buf.s, expShape>>)>> ELSE <<>>)
             ELSE IF ranged /\ ~ex THEN
-                (IF allIn /\ ev.out # "Ok" THEN <<V({"C05"}, "C05|" \o ev.en \o "|in-range-rejected", <<ev.out, ev.pm>>)>>
+                (IF allIn /\ ev.out # "Ok" THEN
+                    (IF isInto /\ ev.out = "Panic" /\ ev.buf.lay # "C"
+                     THEN <<V({"C13"}, "C13|" \o ev.en \o "|layout-rejected|" \o ev.buf.lay, <<ev.buf.s, ev.buf.st, ev.pm>>)>>
+                     ELSE <<V({"C05"}, "C05|" \o ev.en \o "|in-range-rejected", <<ev.out, ev.pm>>)>>)
                  ELSE IF ~allIn /\ ev.out = "Ok" THEN <<V({"C05"}, "C05|" \o ev.en \o "|out-of-range-answered", <<ev.q.v>>)>>
                  ELSE IF ~allIn /\ ev.out # "Err:OutOfBounds" THEN <<V({"C05"}, "C05|" \o ev.en \o "|not-OutOfBounds", <<ev.out, ev.pm>>)>>
                  ELSE <<>>)
             ELSE IF ranged /\ ex /\ allFin THEN
-                (IF ev.out # "Ok" THEN <<V({"C06"}, "C06|" \o ev.en \o "|finite-rejected", <<ev.out, ev.pm>>)>> ELSE <<>>)
+                (IF ev.out # "Ok" THEN
+                    (IF isInto /\ ev.out = "Panic" /\ ev.buf.lay # "C"
+                     THEN <<V({"C13"}, "C13|" \o ev.en \o "|layout-rejected|" \o ev.buf.lay, <<ev.buf.s, ev.buf.st, ev.pm>>)>>
+                     ELSE <<V({"C06"}, "C06|" \o ev.en \o "|finite-rejected", <<ev.out, ev.pm>>)>>) ELSE <<>>)
             ELSE <<>>
         res == ResultOf(ev)
         N == nq * L
@@ -163,17 +347,19 @@ DoQ1(ev) ==
         \* ---- shape (C09)
         vShape == IF judge /\ (res.s # expShape \/ Len(res.v) # N)
                   THEN <<V({"C09"}, "C09|" \o ev.en \o "|shape", <<res.s, expShape>>)>> ELSE <<>>
-        judgeEl == judge /\ vShape = <<>> /\ sk = "Linear"
+        judgeEl == judge /\ vShape = <<>> /\ sk \in {"Linear", "Spline"}
         J == IF judgeEl
              THEN [k \in 1..N |-> LET qi == ((k - 1) \div L) + 1 lane == ((k - 1) % L) + 1
-                                   IN IF IsFin(qs[qi]) THEN JudgeLinElem(o, lane, ev.q.v[qi], qs[qi], res.v[k])
+                                   IN IF IsFin(qs[qi])
+                                      THEN (IF sk = "Linear" THEN JudgeLinElem(o, lane, ev.q.v[qi], qs[qi], res.v[k])
+                                            ELSE JudgeSplElem(o, lane, ev.q.v[qi], qs[qi], res.v[k]))
                                       ELSE [ok |-> TRUE, class |-> "nonfinite-query", memo |-> {}]]
              ELSE <<>>
         vEl == IF judgeEl
                THEN LET badK == SelectSeq([k \in 1..N |-> k], LAMBDA k : ~J[k].ok)
                     IN [i \in 1..Len(badK) |->
                           LET k == badK[i] qi == ((k - 1) \div L) + 1 lane == ((k - 1) % L) + 1
-                          IN V(J[k].props, (IF "C01" \in J[k].props THEN "C01" ELSE "C06") \o "|" \o sk \o "|value",
+                          IN V(J[k].props, sk \o "|value|" \o J[k].class,
                                <<"lane", lane, "q", ev.q.v[qi], "obs", res.v[k], "nearest", QRound(o.el, J[k].ref), "bracket", J[k].bracket>>)]
                ELSE <<>>
         \* ---- memo
@@ -188,13 +374,239 @@ DoQ1(ev) ==
         \* ---- buffer discipline (C14): cells outside the window untouched
         vBuf == IF isInto /\ ev.out = "Ok" /\ bufOk /\ ~OutsideUntouched(ev.buf)
                 THEN <<V({"C14"}, "C14|" \o ev.en \o "|outside-written", <<>>)>> ELSE <<>>
-        classes == <<"Q1|" \o sk \o "|" \o ev.en \o "|" \o ev.out>>
+        hk == sk \o "|" \o o.el
+        hv == IF judgeEl
+              THEN LET RECURSIVE M(_) M(k) == IF k > N THEN 0 ELSE MaxInt(IF Has(J[k], "pm") THEN J[k].pm ELSE 0, M(k + 1)) IN M(1)
+              ELSE 0
+        vCust == IF sk = "Custom" THEN CustomQueryViolations(ev, o, FALSE, bufOk) \o CustomValues1(ev, o, res, judge /\ vShape = <<>>) ELSE <<>>
+        vCast == CastViolations(ev)
+        classes == <<"Q1|" \o sk \o "|" \o ev.en \o "|" \o ev.out, "RANK|" \o ev.en \o "|" \o ev.qtag \o "|q" \o ToString(Len(ev.q.s)) \o "|d" \o ToString(Len(o.dshape))>>
+                   \o CastClasses(ev)
                    \o (IF judgeEl THEN [k \in 1..N |-> "EL|" \o sk \o "|" \o o.el \o "|" \o J[k].class] ELSE <<>>)
-    IN  /\ bad' = bad \o Cap(vOut \o vShape \o vEl \o vMemo \o vBuf)
+    IN  /\ bad' = bad \o Cap(vOut \o vShape \o vEl \o vMemo \o vBuf \o vCust \o vCast)
         /\ memoP' = memoP \cup pairs
         /\ memoK' = memoK \cup {<<p[1], p[2]>> : p \in pairs}
         /\ cov' = Bump(cov, classes)
+        /\ head' = IF judgeEl THEN HeadUp(head, hk, hv) ELSE head
         /\ UNCHANGED objs
+
+----------------------------------------------------------------------------
+\* 2-D build and query events
+
+DoB2(ev) ==
+    LET el == ev.el
+        dshape == ev.d.s
+        rank == Len(dshape)
+        nx == IF rank >= 1 THEN dshape[1] ELSE 0
+        ny == IF rank >= 2 THEN dshape[2] ELSE 0
+        L == Lanes(dshape, 2)
+        xdec == IF ev.xdef = 1 THEN [i \in 1..nx |-> QI(i - 1)] ELSE DecSeq(el, ev.x)
+        ydec == IF ev.ydef = 1 THEN [i \in 1..ny |-> QI(i - 1)] ELSE DecSeq(el, ev.y)
+        inp == [rank |-> rank, nx |-> nx, ny |-> ny, x |-> xdec, y |-> ydec, st |-> ev.st]
+        valid == Valid2(inp)
+        kinds == ViolatedKinds2(inp)
+        v10 == IF ev.out = "Panic" THEN <<V({"C10"}, "C10|build2|Panic", <<ev.msg>>)>>
+               ELSE IF ev.out = "Ok" /\ ~valid THEN <<V({"C10"}, "C10|build2|invalid-accepted", <<kinds>>)>>
+               ELSE IF ev.out # "Ok" /\ valid THEN <<V({"C10"}, "C10|build2|valid-rejected", <<ev.out, ev.msg>>)>>
+               ELSE IF ev.out # "Ok" /\ ~(ErrKind(ev.out) \in kinds) THEN
+                    <<V({"C10"}, "C10|build2|wrong-kind", <<ev.out, kinds>>)>>
+               ELSE <<>>
+        mk == ev.out = "Ok" /\ valid
+        zdec == DecSeq(el, ev.d.v)
+        grid(v) == [j \in 1..L |-> [a \in 1..nx |-> [b \in 1..ny |-> v[((a - 1) * ny + (b - 1)) * L + j]]]]
+        polyOk == ~(Has(ev, "poly") /\ mk) \/
+                  \A j \in 1..L : LET c == DecSeq(el, ev.poly[j]) IN
+                     \A a \in 1..nx : \A b \in 1..ny :
+                        grid(zdec)[j][a][b] = QAdd(QAdd(c[1], QMul(c[2], xdec[a])), QAdd(QMul(c[3], ydec[b]), QMul(c[4], QMul(xdec[a], ydec[b]))))
+        o == [kind |-> "2D", el |-> el, nx |-> nx, ny |-> ny, L |-> L, dshape |-> dshape,
+              x |-> xdec, xb |-> IF ev.xdef = 1 THEN [i \in 1..nx |-> QRound(el, QI(i - 1))] ELSE ev.x,
+              y |-> ydec, yb |-> IF ev.ydef = 1 THEN [i \in 1..ny |-> QRound(el, QI(i - 1))] ELSE ev.y,
+              z |-> grid(zdec), zb |-> grid(ev.d.v), st |-> ev.st, line |-> l]
+        oo == IF Has(ev, "poly") THEN [poly |-> TRUE] @@ o ELSE o
+        xbits == IF ev.xdef = 1 THEN [i \in 1..nx |-> QRound(el, QI(i - 1))] ELSE ev.x
+        ybits == IF ev.ydef = 1 THEN [i \in 1..ny |-> QRound(el, QI(i - 1))] ELSE ev.y
+        v18 == IF ev.st.k = "Custom"
+               THEN CustomBuildViolations(ev, TRUE, ViolatedKinds2([inp EXCEPT !.st = [@ EXCEPT !.fb = 0]]), xbits, ybits)
+               ELSE <<>>
+    IN  /\ Assert(polyOk, <<"harness error: bilinear-function claim of build event does not hold", l>>)
+        /\ objs' = IF mk THEN (ev.id :> oo) @@ objs ELSE objs
+        /\ bad' = bad \o v10 \o v18
+        /\ cov' = Bump(cov, <<"B2|" \o ev.st.k \o "|" \o ev.out>> \o (IF Has(ev, "poly") /\ mk THEN <<"POLY|Bilinear">> ELSE <<>>))
+        /\ UNCHANGED <<memoP, memoK, head>>
+
+JudgeBilElem(o, lane, qxb, qyb, qx, qy, obsb) ==
+    LET i == Bracket(o.x, qx)
+        j == Bracket(o.y, qy)
+        zs == <<o.z[lane][i][j], o.z[lane][i][j + 1], o.z[lane][i + 1][j], o.z[lane][i + 1][j + 1]>>
+        zbs == <<o.zb[lane][i][j], o.zb[lane][i][j + 1], o.zb[lane][i + 1][j], o.zb[lane][i + 1][j + 1]>>
+        key == <<o.el, o.xb[i], o.xb[i + 1], o.yb[j], o.yb[j + 1], zbs, Drop(o.dshape, 2), lane, qxb, qyb>>
+        memo == {<<"bil", key, obsb>>}
+        obs == QDecode(o.el, obsb)
+    IN  IF ~AllFin(zs) THEN [ok |-> TRUE, class |-> "nonfinite-bracket", memo |-> memo]
+        ELSE IF o.el \in {"i32", "i64"} THEN
+             LET z1 == LineInt(o.x[i], zs[1], o.x[i + 1], zs[3], qx)
+                 z2 == LineInt(o.x[i], zs[2], o.x[i + 1], zs[4], qx)
+                 ref == LineInt(o.y[j], z1, o.y[j + 1], z2, qy)
+             IN [ok |-> obs = ref, class |-> "int", props |-> {"C04"}, ref |-> ref, bracket |-> <<i, j>>, pm |-> 0, memo |-> memo]
+        ELSE
+        LET ref == Blend(o.x[i], o.x[i + 1], o.y[j], o.y[j + 1], zs[1], zs[2], zs[3], zs[4], qx, qy)
+            tx == Tau(o.x[i], o.x[i + 1], qx)
+            ty == Tau(o.y[j], o.y[j + 1], qy)
+            tol == TolBil(o.el, zs, ref, tx, ty)
+            inr == InRange(o.x, qx) /\ InRange(o.y, qy)
+            good == IsFin(obs) /\ QLe(QAbs(QSub(obs, ref)), tol)
+            onx == qx = o.x[i] \/ qx = o.x[i + 1]
+            ony == qy = o.y[j] \/ qy = o.y[j + 1]
+        IN  [ok |-> good,
+             class |-> (IF ~inr THEN (IF InRange(o.x, qx) THEN "extrap-y" ELSE IF InRange(o.y, qy) THEN "extrap-x" ELSE "extrap-xy")
+                        ELSE IF onx /\ ony THEN "node" ELSE IF onx \/ ony THEN "edge" ELSE "inner"),
+             props |-> (IF inr THEN {"C04"} ELSE {"C06"}) \cup (IF Has(o, "poly") THEN {"C16"} ELSE {}),
+             ref |-> ref, bracket |-> <<i, j>>,
+             pm |-> IF IsFin(obs) THEN PerMille(QAbs(QSub(obs, ref)), tol) ELSE 1000000, memo |-> memo]
+
+DoQ2(ev) ==
+    IF ev.id \notin DOMAIN objs
+    THEN /\ cov' = Bump(cov, <<"Q2|orphan">>) /\ UNCHANGED <<objs, memoP, memoK, bad, head>>
+    ELSE
+    LET o == objs[ev.id]
+        sk == o.st.k
+        ex == o.st.ex = 1
+        sameShape == ev.q.s = ev.q2.s
+        qxs == DecSeq(o.el, ev.q.v)
+        qys == DecSeq(o.el, ev.q2.v)
+        nq == Len(qxs)
+        L == o.L
+        isInto == ev.en \in {"into", "array_into"}
+        expShape == OutShape(ev.q.s, o.dshape, 2)
+        bufOk == ~isInto \/ ev.buf.s = expShape
+        allIn == sameShape /\ \A i \in 1..nq : InRange(o.x, qxs[i]) /\ InRange(o.y, qys[i])
+        allFin == sameShape /\ \A i \in 1..nq : IsFin(qxs[i]) /\ IsFin(qys[i])
+        ranged == sk = "Bilinear"
+        vOut ==
+            IF ~sameShape THEN
+                (IF ev.out = "Ok" THEN <<V({"C14"}, "C14|" \o ev.en \o "|xy-shape-mismatch-accepted", <<ev.q.s, ev.q2.s>>)>> ELSE <<>>)
+            ELSE IF ~bufOk THEN
+                (IF ev.out = "Ok" THEN <<V({"C14"}, "C14|" \o ev.en \o "|wrong-shape-accepted", <<ev.buf.s, expShape>>)>> ELSE <<>>)
+            ELSE IF ranged /\ ~ex THEN
+                (IF allIn /\ ev.out # "Ok" THEN
+                    (IF isInto /\ ev.out = "Panic" /\ ev.buf.lay # "C"
+                     THEN <<V({"C13"}, "C13|" \o ev.en \o "|layout-rejected|" \o ev.buf.lay, <<ev.buf.s, ev.buf.st, ev.pm>>)>>
+                     ELSE <<V({"C05"}, "C05|" \o ev.en \o "|in-range-rejected", <<ev.out, ev.pm>>)>>)
+                 ELSE IF ~allIn /\ ev.out = "Ok" THEN <<V({"C05"}, "C05|" \o ev.en \o "|out-of-range-answered", <<ev.q.v, ev.q2.v>>)>>
+                 ELSE IF ~allIn /\ ev.out # "Err:OutOfBounds" THEN <<V({"C05"}, "C05|" \o ev.en \o "|not-OutOfBounds", <<ev.out, ev.pm>>)>>
+                 ELSE <<>>)
+            ELSE IF ranged /\ ex /\ allFin THEN
+                (IF ev.out # "Ok" THEN
+                    (IF isInto /\ ev.out = "Panic" /\ ev.buf.lay # "C"
+                     THEN <<V({"C13"}, "C13|" \o ev.en \o "|layout-rejected|" \o ev.buf.lay, <<ev.buf.s, ev.buf.st, ev.pm>>)>>
+                     ELSE <<V({"C06"}, "C06|" \o ev.en \o "|finite-rejected", <<ev.out, ev.pm>>)>>) ELSE <<>>)
+            ELSE <<>>
+        res == ResultOf(ev)
+        N == nq * L
+        judge == ev.out = "Ok" /\ bufOk /\ sameShape
+        vShape == IF judge /\ (res.s # expShape \/ Len(res.v) # N)
+                  THEN <<V({"C09"}, "C09|" \o ev.en \o "|shape", <<res.s, expShape>>)>> ELSE <<>>
+        judgeEl == judge /\ vShape = <<>> /\ sk = "Bilinear"
+        J == IF judgeEl
+             THEN [k \in 1..N |-> LET qi == ((k - 1) \div L) + 1 lane == ((k - 1) % L) + 1
+                                   IN IF IsFin(qxs[qi]) /\ IsFin(qys[qi])
+                                      THEN JudgeBilElem(o, lane, ev.q.v[qi], ev.q2.v[qi], qxs[qi], qys[qi], res.v[k])
+                                      ELSE [ok |-> TRUE, class |-> "nonfinite-query", memo |-> {}]]
+             ELSE <<>>
+        vEl == IF judgeEl
+               THEN LET badK == SelectSeq([k \in 1..N |-> k], LAMBDA k : ~J[k].ok)
+                    IN [i \in 1..Len(badK) |->
+                          LET k == badK[i] qi == ((k - 1) \div L) + 1 lane == ((k - 1) % L) + 1
+                          IN V(J[k].props, sk \o "|value|" \o J[k].class,
+                               <<"lane", lane, "qx", ev.q.v[qi], "qy", ev.q2.v[qi], "obs", res.v[k], "nearest", QRound(o.el, J[k].ref), "cell", J[k].bracket>>)]
+               ELSE <<>>
+        objPairs == IF judge /\ vShape = <<>>
+                    THEN {<<"obj", <<ev.id, ((k - 1) % L) + 1, ev.q.v[((k - 1) \div L) + 1], ev.q2.v[((k - 1) \div L) + 1]>>, res.v[k]>> : k \in 1..N}
+                    ELSE {}
+        famPairs == IF judgeEl THEN UNION {J[k].memo : k \in 1..N} ELSE {}
+        pairs == objPairs \cup famPairs
+        confl == MemoConflicts(pairs)
+        vMemo == LET cs == SeqOfSet(confl)
+                 IN [i \in 1..Len(cs) |-> V(FamilyProps(cs[i][1]), "MEMO|" \o cs[i][1] \o "|" \o ev.en, <<cs[i][2]>>)]
+        vBuf == IF isInto /\ ev.out = "Ok" /\ bufOk /\ ~OutsideUntouched(ev.buf)
+                THEN <<V({"C14"}, "C14|" \o ev.en \o "|outside-written", <<>>)>> ELSE <<>>
+        hk == sk \o "|" \o o.el
+        hv == IF judgeEl
+              THEN LET RECURSIVE M(_) M(k) == IF k > N THEN 0 ELSE MaxInt(IF Has(J[k], "pm") THEN J[k].pm ELSE 0, M(k + 1)) IN M(1)
+              ELSE 0
+        vCust == IF sk = "Custom" THEN CustomQueryViolations(ev, o, TRUE, bufOk /\ sameShape) \o CustomValues2(ev, o, res, judge /\ vShape = <<>>) ELSE <<>>
+        vCast == CastViolations(ev)
+        classes == <<"Q2|" \o sk \o "|" \o ev.en \o "|" \o ev.out, "RANK|" \o ev.en \o "|" \o ev.qtag \o "|q" \o ToString(Len(ev.q.s)) \o "|d" \o ToString(Len(o.dshape))>>
+                   \o CastClasses(ev)
+                   \o (IF judgeEl THEN [k \in 1..N |-> "EL|" \o sk \o "|" \o o.el \o "|" \o J[k].class] ELSE <<>>)
+    IN  /\ bad' = bad \o Cap(vOut \o vShape \o vEl \o vMemo \o vBuf \o vCust \o vCast)
+        /\ memoP' = memoP \cup pairs
+        /\ memoK' = memoK \cup {<<p[1], p[2]>> : p \in pairs}
+        /\ cov' = Bump(cov, classes)
+        /\ head' = IF judgeEl THEN HeadUp(head, hk, hv) ELSE head
+        /\ UNCHANGED objs
+
+----------------------------------------------------------------------------
+\* direct calls of the public helpers and accessors
+
+RelOf(a, b) == IF IsNaN(a) \/ IsNaN(b) THEN "UN" ELSE IF NLt(a, b) THEN "LT" ELSE IF NLt(b, a) THEN "GT" ELSE "EQ"
+
+DoMono(ev) ==
+    LET v == DecSeq(ev.el, ev.v)
+        n == Len(v)
+        rels == [i \in 1..(n - 1) |-> RelOf(v[i], v[i + 1])]
+        hasNaN == \E i \in 1..n : IsNaN(v[i])
+        want == MonoClass(rels)
+        vv == IF ev.out = "Panic" THEN <<V({"C12"}, "C12|monotonic_prop|Panic", <<ev.v>>)>>
+              ELSE IF hasNaN THEN
+                   (IF ev.out \in {"Rising:1", "Rising:0"} THEN <<V({"C12"}, "C12|monotonic_prop|NaN-called-rising", <<ev.v, ev.out>>)>> ELSE <<>>)
+              ELSE IF ev.out # want THEN <<V({"C12"}, "C12|monotonic_prop|misclassified", <<ev.v, ev.out, want>>)>>
+              ELSE <<>>
+    IN  /\ bad' = bad \o vv
+        /\ cov' = Bump(cov, <<"MONO|" \o ev.el \o "|" \o ev.lay \o "|" \o (IF hasNaN THEN "NaN" ELSE want)>>)
+        /\ UNCHANGED <<objs, memoP, memoK, head>>
+
+\* get_lower_index on a bare vector (C11); precondition of the property: strictly increasing axis, non-NaN query
+DoLower(ev) ==
+    LET x == DecSeq(ev.el, ev.x)
+        q == QDecode(ev.el, ev.q)
+        pre == StrictRising(x) /\ ~IsNaN(q) /\ AllFin(x)
+        vv == IF ~pre THEN <<>>
+              ELSE IF ev.out = "Panic" THEN <<V({"C11"}, "C11|get_lower_index|Panic", <<ev.x, ev.q, ev.pm>>)>>
+              ELSE IF ~IsBracket(x, q, ev.res + 1) THEN <<V({"C11"}, "C11|get_lower_index|wrong-interval", <<ev.x, ev.q, ev.res>>)>>
+              ELSE <<>>
+        path == IF Len(ev.lk) > 0 THEN ev.lk[1].path ELSE "nohook"
+        pos == IF NLe(q, x[1]) THEN "below" ELSE IF NLe(x[Len(x)], q) THEN "above" ELSE "inside"
+    IN  /\ bad' = bad \o vv
+        /\ cov' = Bump(cov, <<"LOWER|" \o ev.el \o "|" \o path \o "|" \o pos>>)
+        /\ UNCHANGED <<objs, memoP, memoK, head>>
+
+\* index_point / is_in_range / get_index_left_of on a built interpolator (C18 accessors, C11)
+DoAcc(ev) ==
+    IF ev.id \notin DOMAIN objs THEN /\ cov' = Bump(cov, <<"ACC|orphan">>) /\ UNCHANGED <<objs, memoP, memoK, bad, head>>
+    ELSE
+    LET o == objs[ev.id]
+        twoD == o.kind = "2D"
+        vPoint ==
+            IF ev.what # "point" THEN <<>>
+            ELSE IF twoD THEN
+                (IF ev.out = "Ok" /\ (ev.x # o.xb[ev.i + 1] \/ ev.y # o.yb[ev.j + 1] \/ ev.row # [k \in 1..o.L |-> o.zb[k][ev.i + 1][ev.j + 1]])
+                 THEN <<V({"C18"}, "C18|index_point|wrong", <<ev.i, ev.j>>)>> ELSE <<>>)
+            ELSE
+                (IF ev.out = "Ok" /\ (ev.x # o.xb[ev.i + 1] \/ ev.row # [k \in 1..o.L |-> o.yb[k][ev.i + 1]])
+                 THEN <<V({"C18"}, "C18|index_point|wrong", <<ev.i>>)>> ELSE <<>>)
+        vRange ==
+            IF ev.what # "range" THEN <<>>
+            ELSE LET q == QDecode(o.el, ev.q) IN
+                 (IF (ev.inr = 1) # InRange(o.x, q) THEN <<V({"C18", "C05"}, "C18|is_in_range|wrong", <<ev.q, ev.inr>>)>> ELSE <<>>)
+                 \o (IF twoD /\ (ev.inr2 = 1) # InRange(o.y, QDecode(o.el, ev.q2)) THEN <<V({"C18", "C05"}, "C18|is_in_range|wrong-y", <<ev.q2, ev.inr2>>)>> ELSE <<>>)
+                 \o (IF ~IsNaN(q) /\ (~twoD \/ ~IsNaN(QDecode(o.el, ev.q2))) /\ AllFin(o.x) /\ (ev.left < 0 \/ ~IsBracket(o.x, q, ev.left + 1))
+                      THEN <<V({"C11", "C18"}, "C11|get_index_left_of|wrong-interval", <<ev.q, ev.left>>)>> ELSE <<>>)
+                 \o (IF twoD /\ ~IsNaN(q) /\ ~IsNaN(QDecode(o.el, ev.q2)) /\ AllFin(o.y) /\ (ev.left2 < 0 \/ ~IsBracket(o.y, QDecode(o.el, ev.q2), ev.left2 + 1))
+                      THEN <<V({"C11", "C18"}, "C11|get_index_left_of|wrong-interval-y", <<ev.q2, ev.left2>>)>> ELSE <<>>)
+    IN  /\ bad' = bad \o Cap(vPoint \o vRange)
+        /\ cov' = Bump(cov, <<"ACC|" \o ev.what \o "|" \o o.kind>>)
+        /\ UNCHANGED <<objs, memoP, memoK, head>>
 
 ----------------------------------------------------------------------------
 DoReset(ev) ==
@@ -202,7 +614,7 @@ DoReset(ev) ==
     /\ memoP' = {}
     /\ memoK' = {}
     /\ cov' = Bump(cov, <<"Reset">>)
-    /\ UNCHANGED bad
+    /\ UNCHANGED <<bad, head>>
 
 Init ==
     /\ l = 1
@@ -211,6 +623,7 @@ Init ==
     /\ memoK = {}
     /\ bad = <<>>
     /\ cov = <<>>
+    /\ head = <<>>
 
 Step ==
     /\ l <= Len(Rec)
@@ -218,14 +631,19 @@ Step ==
         CASE ev.ev = "Reset" -> DoReset(ev)
           [] ev.ev = "B1" -> DoB1(ev)
           [] ev.ev = "Q1" -> DoQ1(ev)
+          [] ev.ev = "Mono" -> DoMono(ev)
+          [] ev.ev = "Lower" -> DoLower(ev)
+          [] ev.ev = "Acc" -> DoAcc(ev)
+          [] ev.ev = "B2" -> DoB2(ev)
+          [] ev.ev = "Q2" -> DoQ2(ev)
           [] OTHER -> Assert(FALSE, <<"unknown event", l, ev.ev>>)
     /\ l' = l + 1
 
 Finish ==
     /\ l = Len(Rec) + 1
-    /\ PrintT("VERDICT " \o ToJson([consumed |-> l - 1, total |-> Len(Rec), bad |-> bad, cov |-> cov]))
+    /\ PrintT("VERDICT " \o ToJson([consumed |-> l - 1, total |-> Len(Rec), bad |-> bad, cov |-> cov, head |-> head]))
     /\ l' = l + 1
-    /\ UNCHANGED <<objs, memoP, memoK, bad, cov>>
+    /\ UNCHANGED <<objs, memoP, memoK, bad, cov, head>>
 
 Next == Step \/ Finish
 Spec == Init /\ [][Next]_vars
